@@ -399,3 +399,249 @@ func (w *World) checkIteratorObjects(root *Node) error {
 	}
 	return nil
 }
+
+// checkColdFlavours runs every full-enumeration flavour on its own, each on a storage of its own that has loaded
+// nothing (even flavours) or a PRNG half of the registers (odd flavours) before the enumeration starts: a flavour
+// that only works once another flavour (or a lookup) has brought the slabs of oversized keys / elements into memory
+// is invisible when the flavours run one after another on the same storage.
+func (w *World) checkColdFlavours(root *Node, regs map[atree.SlabID][]byte) error {
+	id := rootID(root)
+	ids := sortedIDs(regs)
+	fresh := func(k int) (*atree.PersistentSlabStorage, error) {
+		ps := newStorage(NewLedgerFrom(regs, nil))
+		if k%2 == 1 {
+			for _, x := range ids {
+				if x != id && w.rng.Intn(2) == 0 {
+					if _, _, err := ps.Retrieve(x); err != nil {
+						return nil, viol("iter-cold", "loading %s failed: %v", x, err)
+					}
+				}
+			}
+		}
+		return ps, nil
+	}
+	nopCb := func(atree.Value) {}
+	defer func() { w.stats.Extra["cold-flavour-rounds"]++ }()
+	if root.Kind == KArr {
+		L := uint64(len(root.Elems))
+		s, e := uint64(0), L
+		if L > 2 {
+			s = uint64(w.rng.Intn(int(L / 2)))
+			e = s + uint64(w.rng.Intn(int(L-s))) + 1
+		}
+		type drv struct {
+			name     string
+			from, to uint64
+			run      func(a *atree.Array, emit func(atree.Value) bool) error
+		}
+		cbf := func(emit func(atree.Value) bool) atree.ArrayIterationFunc {
+			return func(v atree.Value) (bool, error) { return emit(v), nil }
+		}
+		drain := func(it atree.ArrayIterator, err error, emit func(atree.Value) bool) error {
+			if err != nil {
+				return err
+			}
+			for {
+				v, err := it.Next()
+				if err != nil {
+					return err
+				}
+				if v == nil || !emit(v) {
+					return nil
+				}
+			}
+		}
+		drvs := []drv{
+			{"Array.Iterate", 0, L, func(a *atree.Array, emit func(atree.Value) bool) error { return a.Iterate(cbf(emit)) }},
+			{"Array.IterateReadOnly", 0, L, func(a *atree.Array, emit func(atree.Value) bool) error { return a.IterateReadOnly(cbf(emit)) }},
+			{"Array.IterateReadOnlyWithMutationCallback", 0, L, func(a *atree.Array, emit func(atree.Value) bool) error {
+				return a.IterateReadOnlyWithMutationCallback(cbf(emit), nopCb)
+			}},
+			{"Array.IterateRange", s, e, func(a *atree.Array, emit func(atree.Value) bool) error { return a.IterateRange(s, e, cbf(emit)) }},
+			{"Array.IterateReadOnlyRange", s, e, func(a *atree.Array, emit func(atree.Value) bool) error {
+				return a.IterateReadOnlyRange(s, e, cbf(emit))
+			}},
+			{"Array.IterateReadOnlyRangeWithMutationCallback", s, e, func(a *atree.Array, emit func(atree.Value) bool) error {
+				return a.IterateReadOnlyRangeWithMutationCallback(s, e, cbf(emit), nopCb)
+			}},
+			{"Array.Iterator", 0, L, func(a *atree.Array, emit func(atree.Value) bool) error {
+				it, err := a.Iterator()
+				return drain(it, err, emit)
+			}},
+			{"Array.ReadOnlyIterator", 0, L, func(a *atree.Array, emit func(atree.Value) bool) error {
+				it, err := a.ReadOnlyIterator()
+				return drain(it, err, emit)
+			}},
+			{"Array.ReadOnlyIteratorWithMutationCallback", 0, L, func(a *atree.Array, emit func(atree.Value) bool) error {
+				it, err := a.ReadOnlyIteratorWithMutationCallback(nopCb)
+				return drain(it, err, emit)
+			}},
+			{"Array.RangeIterator", s, e, func(a *atree.Array, emit func(atree.Value) bool) error {
+				it, err := a.RangeIterator(s, e)
+				return drain(it, err, emit)
+			}},
+			{"Array.ReadOnlyRangeIterator", s, e, func(a *atree.Array, emit func(atree.Value) bool) error {
+				it, err := a.ReadOnlyRangeIterator(s, e)
+				return drain(it, err, emit)
+			}},
+			{"Array.ReadOnlyRangeIteratorWithMutationCallback", s, e, func(a *atree.Array, emit func(atree.Value) bool) error {
+				it, err := a.ReadOnlyRangeIteratorWithMutationCallback(s, e, nopCb)
+				return drain(it, err, emit)
+			}},
+		}
+		for k, d := range drvs {
+			ps, err := fresh(k)
+			if err != nil {
+				return err
+			}
+			a, err := atree.NewArrayWithRootID(ps, id)
+			if err != nil {
+				return viol("iter-cold", "cold open failed: %v", err)
+			}
+			cmp := &cmpCtx{storage: ps, cb: w.cb}
+			i := d.from
+			var inner error
+			err = d.run(a, func(v atree.Value) bool {
+				if i >= d.to {
+					inner = viol("iter-cold", "%s (cold storage, range %d..%d) yields more than %d elements", d.name, d.from, d.to, d.to-d.from)
+					return false
+				}
+				if err := cmp.shallowEquals(v, root.Elems[i], fmt.Sprintf("%s (cold storage) element %d", d.name, i)); err != nil {
+					inner = viol("iter-cold", "%v", err)
+					return false
+				}
+				i++
+				return true
+			})
+			if inner != nil {
+				return inner
+			}
+			if err != nil || i != d.to {
+				return viol("iter-cold", "%s on a storage that had not loaded the slabs before (preload=%v): %d of %d elements, error %v", d.name, k%2 == 1, i-d.from, d.to-d.from, err)
+			}
+			w.stats.Extra["cold-single-flavour-iterations"]++
+		}
+		return nil
+	}
+
+	exp, err := w.expectedMapOrder(root)
+	if err != nil {
+		return err
+	}
+	type emitFn func(k, v atree.Value) bool
+	type drv struct {
+		name string
+		run  func(m *atree.OrderedMap, emit emitFn) error
+	}
+	kv := func(emit emitFn) atree.MapEntryIterationFunc {
+		return func(k, v atree.Value) (bool, error) { return emit(k, v), nil }
+	}
+	ko := func(emit emitFn) atree.MapElementIterationFunc {
+		return func(k atree.Value) (bool, error) { return emit(k, nil), nil }
+	}
+	vo := func(emit emitFn) atree.MapElementIterationFunc {
+		return func(v atree.Value) (bool, error) { return emit(nil, v), nil }
+	}
+	drain := func(it atree.MapIterator, err error, mode int, emit emitFn) error {
+		if err != nil {
+			return err
+		}
+		for {
+			md := mode
+			if mode == 3 {
+				md = w.rng.Intn(3)
+			}
+			var k, v atree.Value
+			switch md {
+			case 0:
+				k, v, err = it.Next()
+			case 1:
+				k, err = it.NextKey()
+			default:
+				v, err = it.NextValue()
+			}
+			if err != nil {
+				return err
+			}
+			if (k == nil && v == nil) || !emit(k, v) {
+				return nil
+			}
+		}
+	}
+	drvs := []drv{
+		{"Map.Iterate", func(m *atree.OrderedMap, emit emitFn) error { return m.Iterate(w.cb.Compare, w.cb.HashInput, kv(emit)) }},
+		{"Map.IterateReadOnly", func(m *atree.OrderedMap, emit emitFn) error { return m.IterateReadOnly(kv(emit)) }},
+		{"Map.IterateKeys", func(m *atree.OrderedMap, emit emitFn) error {
+			return m.IterateKeys(w.cb.Compare, w.cb.HashInput, ko(emit))
+		}},
+		{"Map.IterateReadOnlyKeys", func(m *atree.OrderedMap, emit emitFn) error { return m.IterateReadOnlyKeys(ko(emit)) }},
+		{"Map.IterateValues", func(m *atree.OrderedMap, emit emitFn) error {
+			return m.IterateValues(w.cb.Compare, w.cb.HashInput, vo(emit))
+		}},
+		{"Map.IterateReadOnlyValues", func(m *atree.OrderedMap, emit emitFn) error { return m.IterateReadOnlyValues(vo(emit)) }},
+		{"Map.IterateReadOnlyWithMutationCallback", func(m *atree.OrderedMap, emit emitFn) error {
+			return m.IterateReadOnlyWithMutationCallback(kv(emit), nopCb, nopCb)
+		}},
+		{"Map.IterateReadOnlyKeysWithMutationCallback", func(m *atree.OrderedMap, emit emitFn) error {
+			return m.IterateReadOnlyKeysWithMutationCallback(ko(emit), nopCb)
+		}},
+		{"Map.IterateReadOnlyValuesWithMutationCallback", func(m *atree.OrderedMap, emit emitFn) error {
+			return m.IterateReadOnlyValuesWithMutationCallback(vo(emit), nopCb)
+		}},
+	}
+	for mode := 0; mode < 4; mode++ {
+		mode := mode
+		drvs = append(drvs,
+			drv{fmt.Sprintf("Map.Iterator (mode %d)", mode), func(m *atree.OrderedMap, emit emitFn) error {
+				it, err := m.Iterator(w.cb.Compare, w.cb.HashInput)
+				return drain(it, err, mode, emit)
+			}},
+			drv{fmt.Sprintf("Map.ReadOnlyIterator (mode %d)", mode), func(m *atree.OrderedMap, emit emitFn) error {
+				it, err := m.ReadOnlyIterator()
+				return drain(it, err, mode, emit)
+			}},
+			drv{fmt.Sprintf("Map.ReadOnlyIteratorWithMutationCallback (mode %d)", mode), func(m *atree.OrderedMap, emit emitFn) error {
+				it, err := m.ReadOnlyIteratorWithMutationCallback(nopCb, nopCb)
+				return drain(it, err, mode, emit)
+			}})
+	}
+	for k, d := range drvs {
+		ps, err := fresh(k + w.stats.Extra["cold-flavour-rounds"]) // every flavour sees both preload modes over the rounds of a case
+		if err != nil {
+			return err
+		}
+		m, err := atree.NewMapWithRootID(ps, id, w.builderFor(root))
+		if err != nil {
+			return viol("iter-cold", "cold open failed: %v", err)
+		}
+		cmp := &cmpCtx{storage: ps, cb: w.cb}
+		i := 0
+		var inner error
+		err = d.run(m, func(k, v atree.Value) bool {
+			if i >= len(exp) {
+				inner = viol("iter-cold", "%s (cold storage) yields more than %d entries", d.name, len(exp))
+				return false
+			}
+			if k != nil && !scalarEqual(k, exp[i].k) {
+				inner = viol("iter-cold", "%s (cold storage) position %d: key %v, expected %s", d.name, i, k, exp[i].k)
+				return false
+			}
+			if v != nil {
+				if err := cmp.shallowEquals(v, exp[i].v, fmt.Sprintf("%s (cold storage) value %d", d.name, i)); err != nil {
+					inner = viol("iter-cold", "%v", err)
+					return false
+				}
+			}
+			i++
+			return true
+		})
+		if inner != nil {
+			return inner
+		}
+		if err != nil || i != len(exp) {
+			return viol("iter-cold", "%s on a storage that had not loaded the slabs before: %d of %d entries, error %v", d.name, i, len(exp), err)
+		}
+		w.stats.Extra["cold-single-flavour-iterations"]++
+	}
+	return nil
+}
